@@ -142,6 +142,11 @@ def run_tree_block(task, visitor):
                 stats["nodes"] += min(k, j - new_from + 1)
             msgs = visitor.node(run, j, new)
             for m in msgs or ():
+                if cfg.get("fail_at"):
+                    # the injected failure shortens one call: the replay needs the whole script and the moment to stop at
+                    viol.append(dict(driver="tree", cfg=cfg, alphabet=alphabet, choices=list(leaf), upto=j, batch=batch,
+                                     message=m, sig=dict(kind="node")))
+                    continue
                 viol.append(dict(driver="tree", cfg=cfg, alphabet=alphabet, choices=list(leaf[:j]), batch=batch, message=m,
                                  sig=dict(kind="node")))
         if not dead:
@@ -172,6 +177,8 @@ def replay_tree(rec, visitor):
             return msgs
         j += k
         msgs += list(visitor.node(run, j, True) or ())
+        if rec.get("upto") is not None and j >= rec["upto"]:
+            return msgs
     msgs += list(visitor.leaf(run) or ())
     return msgs
 
